@@ -252,6 +252,177 @@ def run_many(hs, cfile, workdir, cfg, tier, jobs=None):
     return results
 
 
+def clause_text(cfile, line):
+    try:
+        with open(cfile) as fh:
+            ls = fh.read().split('\n')
+        return ls[int(line) - 1].strip()[:400]
+    except Exception:
+        return ''
+
+
+def load_known():
+    p = os.path.join(ROOT, 'known_findings.json')
+    if not os.path.exists(p):
+        return {'findings': [], 'fixed': []}
+    with open(p) as fh:
+        return json.load(fh)
+
+
+def match_known(known, prop, harness, failed):
+    """a finding suppresses exactly the obligations it lists for that harness (by function + description substring)"""
+    for k in known.get('findings', []):
+        if k.get('property') != prop:
+            continue
+        for o in k.get('obligations', []):
+            if o.get('harness') == harness['name'] and o.get('function') == failed.get('function') and \
+                    o.get('description') in (failed.get('description') or '') and \
+                    (not o.get('clause') or o.get('clause') in (failed.get('clause') or '')):
+                return k
+    return None
+
+
+def assumptions_scan(comp_cfgs):
+    """mechanical scan of the assumed side: every __CPROVER_assume, every model with a body, every stub"""
+    out = []
+    files = set()
+    for cfg in comp_cfgs:
+        for f in cfg['prelude'] + cfg['midlude'] + cfg['postlude']:
+            files.add(os.path.join(ROOT, f))
+    files.add(os.path.join(ROOT, 'specs', 'elem.h'))
+    for f in sorted(files):
+        if not os.path.exists(f):
+            continue
+        with open(f) as fh:
+            for i, l in enumerate(fh.read().split('\n'), 1):
+                if '__CPROVER_assume' in l:
+                    out.append('%s:%d assume: %s' % (os.path.relpath(f, ROOT), i, l.strip()[:160]))
+                m = re.match(r'^static\s+[\w\s\*]+?\b(\w+)\s*\(', l)
+                if m and not l.strip().endswith(';'):
+                    out.append('%s:%d model of dependency: %s' % (os.path.relpath(f, ROOT), i, m.group(1)))
+    return out
+
+
+def components_for(prop):
+    comps = []
+    for fn in sorted(os.listdir(os.path.join(ROOT, 'contracts'))):
+        if not fn.endswith('.spec'):
+            continue
+        cfg, contracts, hs = parse_spec(os.path.join(ROOT, 'contracts', fn))
+        if any(prop in h['props'] for h in hs):
+            comps.append(fn[:-5])
+    return comps
+
+
+def check(prop, tier):
+    t0 = time.time()
+    seed = int(os.environ.get('VERIF_SEED', '0') or 0)
+    wd = os.path.join(WORK, prop)
+    shutil.rmtree(wd, ignore_errors=True)
+    os.makedirs(wd, exist_ok=True)
+    evp = os.path.join(ROOT, 'evidence', prop + '.json')
+    comps = components_for(prop)
+    if not comps:
+        raise ToolFailure('no harness is registered for property %s' % prop)
+    all_results, funcs, cfgs = [], [], []
+    lower_s = 0.0
+    for comp in comps:
+        cwd = os.path.join(wd, comp)
+        cfile, em, cfg, contracts, hs, dt = build_component(comp, cwd)
+        lower_s += dt
+        cfgs.append(cfg)
+        sel = select(hs, prop=prop, tier=tier)
+        rs = run_many(sel, cfile, cwd, cfg, tier)
+        for r in rs:
+            r['component'] = comp
+            r['cfile'] = cfile
+            for f in r['failed']:
+                f['clause'] = clause_text(cfile, f['line']) if f.get('line') and (f.get('file') or '').endswith('lowered.c') else ''
+        all_results += rs
+        under = sorted(set([h['enforce'] for h in sel if h['enforce']]))
+        for c in under:
+            if c in em.func_loc:
+                q, f, l = em.func_loc[c]
+                funcs.append({'function': q, 'lowered_as': c, 'source': '%s:%s' % (f, l), 'lowered_text_sha': em.src_hash[c]})
+    tool_bad = [r for r in all_results if r['status'] in ('error', 'timeout', 'oom')]
+    known = load_known()
+    violations, known_hits = [], []
+    for r in all_results:
+        if r['status'] != 'fail':
+            continue
+        fresh = []
+        for f in r['failed']:
+            k = match_known(known, prop, r, f)
+            if k:
+                known_hits.append((k, r, f))
+            else:
+                fresh.append(f)
+        if fresh:
+            violations.append((r, fresh))
+    obligations = sum(r['obligations'] for r in all_results)
+    discharged = sum(r['discharged'] for r in all_results)
+    samples = []
+    for r in all_results[:4]:
+        samples.append({'harness': r['name'], 'function_under_contract': r['enforce'], 'replaced_by_contract': r['replace'],
+                        'obligations': r['obligations'], 'discharged': r['discharged'], 'wall_s': round(r['wall_s'], 1)})
+    ev = {
+        'property_id': prop, 'tier': tier, 'seed': seed, 'level': 'proof',
+        'coverage': {
+            'obligations': obligations, 'discharged': discharged,
+            'checker_cmd': '; '.join(all_results[0]['cmds']) if all_results else '',
+            'trusted_base': ['clang 14 semantic analysis + cxxlower (lower/*.py) lowering of the listed instantiations',
+                             'cbmc/goto-instrument 6.11.0 (dfcc contract instrumentation), cadical SAT back end',
+                             'library models and contracts under /verif/specs (see assumptions)'],
+            'back_end': 'cbmc 6.11.0 + cadical (SAT); no SMT, no quantifiers',
+            'functions_under_contract': funcs,
+            'harnesses': [{'harness': r['name'], 'component': r['component'], 'status': r['status'], 'enforce': r['enforce'],
+                           'replace': r['replace'], 'obligations': r['obligations'], 'discharged': r['discharged'],
+                           'vacuity_canary_reachable': r.get('canary'), 'wall_s': round(r['wall_s'], 1),
+                           'solver_s': round(r.get('solver_s', 0.0), 1)} for r in all_results],
+            'bounded': [],
+            'samples': samples,
+            'extraction_drops': EXTRACTION_DROPS,
+            'lowering_s': round(lower_s, 1),
+            'solver_s_total': round(sum(r.get('solver_s', 0.0) for r in all_results), 1),
+            'known_findings_hit': [k['id'] for (k, r, f) in known_hits],
+            'explanation': 'every obligation generated by goto-instrument --dfcc (function contracts enforced, callee contracts '
+                           'replaced, loop contracts applied) plus cbmc pointer/bounds/overflow checks for the functions lowered '
+                           'from /repo on this run',
+        },
+        'assumptions': assumptions_scan(cfgs) + [
+            'machine integers are bit-precise; domain restrictions: capacities/lengths <= 2^30, counters < 2^62',
+            'malloc never fails; realloc preserves the common prefix',
+            'induction over operation histories / schedules is a paper argument (DESIGN.md section 8)'],
+        'wall_s': round(time.time() - t0, 1),
+        'violations': len(violations),
+    }
+    os.makedirs(os.path.dirname(evp), exist_ok=True)
+    with open(evp, 'w') as fh:
+        json.dump(ev, fh, indent=1)
+    if tool_bad:
+        for r in tool_bad:
+            sys.stderr.write('TOOL-FAILURE %s %s: %s\n' % (r['name'], r['status'], r['detail'][:1500]))
+        print('UNDECIDED property=%s (%d harness(es) gave no verdict: %s)' % (prop, len(tool_bad), ', '.join(r['name'] for r in tool_bad)))
+        return 2
+    seen = set()
+    for (k, r, f) in known_hits:
+        if k['id'] not in seen:
+            seen.add(k['id'])
+            print('KNOWN-FINDING: property=%s %s' % (prop, k['what']))
+    if violations:
+        import replay_hooks
+        for (r, fresh) in violations:
+            rp = replay_hooks.make_replay(prop, r, fresh, wd, tier)
+            suffix = '' if rp.get('confirmed') else ' no-failing-input-found'
+            for f in fresh[:6]:
+                print('FAILED-OBLIGATION property=%s harness=%s function=%s obligation=%s :: %s :: %s' % (
+                    prop, r['name'], f.get('function'), f.get('property'), f.get('description'), f.get('clause', '')[:200]))
+            print('VIOLATION property=%s replay=%s%s' % (prop, rp['path'], suffix))
+        return 1
+    print('OK property=%s obligations=%d discharged=%d harnesses=%d wall=%.0fs' % (prop, obligations, discharged, len(all_results), time.time() - t0))
+    return 0
+
+
 def main(argv):
     if len(argv) < 2:
         print(__doc__)
@@ -281,6 +452,13 @@ def main(argv):
                 print('   FAILED', f['property'], '|', f['description'], '|', f['file'], f['line'])
         print('%d harnesses, %d not passing' % (len(rs), len(bad)))
         return 0 if not bad else 1
+    if cmd == 'check':
+        prop = argv[2]
+        tier = os.environ.get('VERIF_TIER') or ('thorough' if '--thorough' in argv else 'quick')
+        for i, a in enumerate(argv):
+            if a == '--tier':
+                tier = argv[i + 1]
+        return check(prop, tier)
     print('unknown command')
     return 2
 
